@@ -96,6 +96,30 @@ CHECKS.update(
     }
 )
 
+CHECKS.update(
+    {
+        "C04": (
+            "metamorphic pairs of whole runs: a generated backtest vs the same backtest with every value dated after a generated cut perturbed; bit-identical prefix oracle",
+            "Generated backtests over the whole stock-algo grammar (look-back/lag algos, nested trees, bid/offer, signals, dated weights, stat frames) are run twice, the second time with all "
+            "supplied values after a generated cut date perturbed; all node histories and transactions up to the cut must be bit-identical.",
+            "Only stock algos are quantified; index and columns are not perturbed; both runs use the same RNG seeds.",
+            "5/C04",
+        ),
+    }
+)
+
+CHECKS.update(
+    {
+        "C09": (
+            "differential pairs of whole runs: every sub-strategy of a generated nested backtest vs a stand-alone Backtest of the same definition (Hypothesis-generated)",
+            "Generated nested backtests with deterministic calendar-gated children and arbitrary parents/allocation schedules; each sub-strategy's index is compared date for date with the "
+            "index of a stand-alone backtest of the same definition, and with the column the parent sees.",
+            "Children use no RNG algos and a calendar gate (the statement's quantifier); bankrupt stand-alone runs are discarded.",
+            "5/C09",
+        ),
+    }
+)
+
 NOT_YET = {}
 
 ALL = ["C%02d" % i for i in range(1, 21)]
